@@ -52,8 +52,8 @@ def tier_bounds(tier):
             'factors_explicit_count_only': (1.0, ONE_P),
             'k_max': 40,
             'counts': (None, 0, 1, 2, 5, 50, 'repeat'),
-            'jitter_starts': (1.0, 0.0, 0.25, 3.0, 1e6, 5e-324),
-            'jitter_factors_default_count': (2.0, 10.0, 1.5, math.e),
+            'jitter_starts': (1.0, 0.0, 0.25, 3.0, 5e-324),
+            'jitter_factors_default_count': (2.0, 10.0, 1.5),
             'jitter_factors_explicit_count_only': (1.0, ONE_P),
             'jitter_k': (0, 1, 2, 3, 5),
             'jitter_counts': (None, 0, 1, 3, 6, 'repeat'),
@@ -415,6 +415,9 @@ def run_point(seam, t, p, repeat_items):
         ref_steps = Reference(p['start'], p['stop'], p['factor']).steps_to_stop()
     nt = nontrivial(p)
     for draws in scripts_for(p, ref_steps, repeat_items):
+        if _hangs >= MAX_HANGS:
+            t.add('skipped_after_hangs', 1)
+            continue
         case = dict(p, draws=list(draws), repeat_items=repeat_items)
         t.count(nontrivial=nt, sample=case)
         for sig, exp, obs in check_case(seam, p, draws, repeat_items):
